@@ -320,7 +320,7 @@ class MSGate(XXPowGate):
     def __repr__(self) -> str:
         if self._exponent == 1:
             return 'cirq.ms(np.pi/2)'
-        return f'cirq.ms({self._exponent!r}*np.pi/2)'
+        return f'cirq.ms({proper_repr(self._exponent)}*np.pi/2)'
 
     # the default namespace is already occupied by cirq_ionq.MSGate
     @classmethod
